@@ -22,6 +22,13 @@ import (
 
 var mf *os.File
 var mmu sync.Mutex
+var lateActive int32
+var lateQueued = make(chan struct{})
+var lateQueuedOnce sync.Once
+
+// syncHold, when non-nil, holds the late request at the entry of RequestFlush (its records are queued,
+// its flush not yet requested) until Shutdown() has returned
+var syncHold chan struct{}
 
 func mark(s string) {
 	mmu.Lock()
@@ -130,6 +137,26 @@ func main() {
 			}
 			sigmu.Unlock()
 			r := gen.New(h.HookSeed, name, int(n))
+			if name == "wal.reqflush.enter" && atomic.LoadInt32(&lateActive) == 1 {
+				lateQueuedOnce.Do(func() { close(lateQueued) })
+				// the request that races with Shutdown(): widen the window between "commands queued" and
+				// "flush requested", then leave a marker so the judge can tell a transaction written before
+				// this point (by the WAL loop) from one written after it (by the request's own flush)
+				if syncHold != nil {
+					select {
+					case <-syncHold:
+					case <-time.After(20 * time.Second):
+						mark("HOLDTIMEOUT")
+					}
+				} else {
+					time.Sleep(time.Duration(r.Intn(3000)) * time.Microsecond)
+				}
+				mark("HRF")
+				return
+			}
+			if name == "wal.reqflush.queued" && atomic.LoadInt32(&lateActive) == 1 {
+				mark("HRQ") // the late request handed its flush to the WAL loop (it did not flush by itself)
+			}
 			switch r.Intn(8) {
 			case 0:
 				time.Sleep(time.Duration(50+r.Intn(1500)) * time.Microsecond)
@@ -195,7 +222,7 @@ func main() {
 		}
 	}
 	var wg sync.WaitGroup
-	inflight := h.End == "shutdown_inflight" && len(h.Threads) > 0 && len(h.Threads[0]) > 0
+	inflight := (h.End == "shutdown_inflight" || h.End == "shutdown_inflight_sync") && len(h.Threads) > 0 && len(h.Threads[0]) > 0
 	var lastStep []hist.Step
 	for ti, th := range h.Threads {
 		steps := th
@@ -208,7 +235,7 @@ func main() {
 	}
 	wg.Wait()
 	switch h.End {
-	case "shutdown", "shutdown_inflight":
+	case "shutdown", "shutdown_inflight", "shutdown_inflight_sync":
 		if h.PreShutdownUs > 0 {
 			time.Sleep(time.Duration(h.PreShutdownUs) * time.Microsecond)
 		}
@@ -216,13 +243,49 @@ func main() {
 		d1 := dump.All(in, true)
 		d1.Stage = "before_shutdown"
 		hist.WriteJSON(filepath.Join(outdir, "dump_before.json"), d1)
+		lateDone := make(chan struct{})
 		if inflight {
-			go runThread(lastStep)
-			time.Sleep(time.Duration(h.HookSeed%7) * 300 * time.Microsecond)
+			if h.End == "shutdown_inflight_sync" {
+				syncHold = make(chan struct{})
+			}
+			atomic.StoreInt32(&lateActive, 1)
+			go func() { runThread(lastStep); close(lateDone) }()
+			if h.End == "shutdown_inflight_sync" {
+				// request the shutdown exactly when the late request has queued its records and is about to
+				// ask for its flush
+				select {
+				case <-lateQueued:
+				case <-time.After(time.Second):
+				}
+			} else {
+				time.Sleep(time.Duration(h.HookSeed%7) * 300 * time.Microsecond)
+			}
+		} else {
+			close(lateDone)
 		}
 		mark("SD")
-		in.Shutdown()
+		sdDone := make(chan struct{})
+		go func() { in.Shutdown(); close(sdDone) }()
+		select {
+		case <-sdDone:
+		case <-time.After(15 * time.Second):
+			// Shutdown() polls the write channel until it is empty; a request that queued records after
+			// the WAL loop had gone leaves it non-empty for good
+			mark("SDHANG")
+			mark("END")
+			os.Exit(0)
+		}
 		mark("X")
+		if syncHold != nil {
+			close(syncHold)
+		}
+		// give the request that raced with the shutdown time to return (it may be blocked for good when
+		// its flush request was never served): its A marker tells the judge whether it flushed by itself
+		select {
+		case <-lateDone:
+		case <-time.After(2 * time.Second):
+			mark("LATEBLOCKED")
+		}
 		d2 := dump.All(in, true)
 		d2.Stage = "after_shutdown"
 		hist.WriteJSON(filepath.Join(outdir, "dump_after.json"), d2)
